@@ -19,6 +19,8 @@
 //	          side or argument `append(X, …)`, `X[a:b]`, `&X` rooted at the receiver counts as a write of the receiver;
 //	          methods called on the receiver/clone must be clone, Options accessors, or methods of the same type that write
 //	          nothing through their receiver; anything unclassifiable is refused
+//	          a slice field of the clone may only be assigned `append(<clone>.<same field>, …)`; With* must not call
+//	          newBuffer/freeBuffer (pooled memory must not become part of a handler)
 //	Logger    With/WithGroup must return `l` or `&Logger{…}` and never assign through `l`
 //	Handle    `buf := newBuffer()`, `defer freeBuffer(buf)`, `h.outMu.Lock()`, `defer h.outMu.Unlock()` (or Unlock after the
 //	          Write) and exactly one `h.out.Write(*buf)` must be TOP-LEVEL statements of Handle in this order; any of them
@@ -251,8 +253,9 @@ type writes struct {
 	globalW     []string // writes rooted at a package-level variable
 	other       []string // writes we cannot classify
 	fresh       map[string]bool
-	recvCalls   []string // methods called on the receiver or on a clone
-	funcCalls   []string // package-level functions called
+	recvCalls   []string    // methods called on the receiver or on a clone
+	funcCalls   []string    // package-level functions called
+	freshAssign [][2]string // `x.f = rhs` with x a fresh clone: field name, right-hand side
 }
 
 // scanWrites classifies every write in the body of fn. recv may be "" (plain function).
@@ -377,13 +380,22 @@ func scanWrites(p *pkg, recv string, fn *ast.FuncDecl) *writes {
 	ast.Inspect(fn.Body, func(n ast.Node) bool {
 		switch x := n.(type) {
 		case *ast.AssignStmt:
-			for _, l := range x.Lhs {
+			for i, l := range x.Lhs {
 				if x.Tok == token.DEFINE {
 					if _, ok := l.(*ast.Ident); ok {
 						continue
 					}
 				}
 				target(l, "assign")
+				if sel, ok := l.(*ast.SelectorExpr); ok {
+					if id, ok := sel.X.(*ast.Ident); ok && w.fresh[id.Name] {
+						rhs := "?"
+						if len(x.Rhs) == len(x.Lhs) {
+							rhs = show(x.Rhs[i])
+						}
+						w.freshAssign = append(w.freshAssign, [2]string{sel.Sel.Name, id.Name + "|" + rhs})
+					}
+				}
 			}
 			for _, r := range x.Rhs {
 				aliasing(r, "right-hand side")
@@ -605,6 +617,7 @@ func chainOf(p *pkg, typ string) chainFacts {
 		if len(w.fresh) == 0 {
 			unrecognised("%s.WithAttrs: no `x := %s.clone()`", typ, wa.recv)
 		}
+		sliceSources(p, typ, "WithAttrs", w)
 		f.WithAttrsFresh = len(w.recvWrites) == 0 && len(w.globalW) == 0 && helperCallsClean(p, typ, w, "WithAttrs")
 		for _, r := range append(w.recvWrites, w.globalW...) {
 			f.Notes = append(f.Notes, "WithAttrs writes the receiver / shared state: "+r)
@@ -627,6 +640,7 @@ func chainOf(p *pkg, typ string) chainFacts {
 			if len(w.fresh) == 0 && len(w.recvWrites) == 0 {
 				unrecognised("%s.WithGroup: no `x := %s.clone()` and not `return %s`", typ, wg.recv, wg.recv)
 			}
+			sliceSources(p, typ, "WithGroup", w)
 			f.WithGroupFresh = len(w.recvWrites) == 0 && len(w.globalW) == 0 && helperCallsClean(p, typ, w, "WithGroup")
 			for _, r := range append(w.recvWrites, w.globalW...) {
 				f.Notes = append(f.Notes, "WithGroup writes the receiver / shared state: "+r)
@@ -634,6 +648,25 @@ func chainOf(p *pkg, typ string) chainFacts {
 		}
 	}
 	return f
+}
+
+// sliceSources: a slice field of the fresh clone may only be assigned `append(<clone>.<same field>, …)`: memory that
+// comes from anywhere else (a pooled buffer, a helper's return value) is outside what the facts can vouch for.
+func sliceSources(p *pkg, typ, where string, w *writes) {
+	for _, fa := range w.freshAssign {
+		if !strings.HasPrefix(fieldType(p, typ, fa[0]), "[]") {
+			continue
+		}
+		parts := strings.SplitN(fa[1], "|", 2)
+		if !strings.HasPrefix(parts[1], "append("+parts[0]+"."+fa[0]+",") {
+			unrecognised("%s.%s: %s.%s = %s: the child's slice does not come from append(%s.%s, …)", typ, where, parts[0], fa[0], parts[1], parts[0], fa[0])
+		}
+	}
+	for _, c := range w.funcCalls {
+		if c == "newBuffer" || c == "freeBuffer" {
+			unrecognised("%s.%s uses the line-buffer pool (%s): pooled memory must not become part of a handler", typ, where, c)
+		}
+	}
 }
 
 // loggerWraps: Logger.With / WithGroup return the receiver or a new &Logger{…} and never assign through the receiver.
